@@ -508,6 +508,8 @@ inductive GArg
   | num (q : Rat)
   | sym (name : String)
   | expr (name : String)
+  /-- a program variable holding one value per time bin (TDM programs) -/
+  | arr (vals : List Rat)
 deriving Repr, DecidableEq
 
 def GArg.isSymbol : GArg → Bool | .sym _ => true | _ => false
@@ -519,11 +521,13 @@ def GArg.isExpr : GArg → Bool | .num _ => false | _ => true
 def hardCodedClash (layoutArgs progArgs : List GArg) : Bool :=
   (layoutArgs.zip progArgs).any fun xy => decide (xy.1 ≠ xy.2) && !(xy.1.isSymbol || xy.2.isExpr)
 
-/-- `_fixed_layout_values_match` node rule: two numbers farther apart than `atol = 1e-5` do not match -/
+/-- `_fixed_layout_values_match` node rule: a number of the layout and a number — or ANY value of an array variable — of the
+program farther apart than `atol = 1e-5` do not match -/
 def fixedValuesMatch (layoutArgs progArgs : List GArg) : Bool :=
   (layoutArgs.zip progArgs).all fun xy =>
     match xy.1, xy.2 with
     | .num a, .num b => decide (a - b ≤ defaultAtol ∧ b - a ≤ defaultAtol)
+    | .num a, .arr vs => vs.all fun b => decide (a - b ≤ defaultAtol ∧ b - a ≤ defaultAtol)
     | _, _ => true
 
 /-! ## `decompositions.rectangular_symmetric`: pushing the local phases to the end (angles in units of π) -/
